@@ -12,10 +12,10 @@ harnesses! {
     fn polygon_area_3(s) { poly_case(s, 3) }
     /// quadrilaterals
     #[kani::unwind(7)]
-    fn polygon_area_4(s) { poly_case(s, 4) }
+    fn polygon_area_4(s) { poly_case_k(s, 4, Some(2.0)) }
     /// pentagons
     #[kani::unwind(8)]
-    fn polygon_area_5(s) { poly_case(s, 5) }
+    fn polygon_area_5(s) { poly_case_k(s, 5, Some(0.5)) }
 
     /// Space::area, Space::height_net, Wall::area_net on a small wall set
     #[kani::unwind(6)]
@@ -63,53 +63,65 @@ harnesses! {
         std::mem::forget(m);
     }
 
-    /// global figures and envelope membership from EnergyProps::from(&Model)
+    /// reference area, volumes, compactness, Co from EnergyProps::from(&Model): one space and its floor
     #[kani::unwind(6)]
     #[kani::stub(alloc::fmt::format, crate::stubs::fmt_stub)]
     #[kani::stub(f32::round, crate::stubs::round_stub)]
     #[kani::stub(bemodel::Model::compute_fshobst, crate::stubs::fshobst_stub)]
     fn props_global(s) {
         let mut m = Model::default();
-        let (in1, in2) = (s.bool(), s.bool());
-        let (k1, k2) = (any_kind(s), any_kind(s));
+        let in1 = s.bool();
+        let k1 = any_kind(s);
         let mult = if s.bool() { 1.0 } else { 2.0 };
         let h1 = 2.0 + s.g(2);
         m.spaces.push(space(1, k1, in1, h1, 0.0, None));
         m.spaces[0].multiplier = mult;
-        m.spaces.push(space(2, k2, in2, 3.0, 0.0, None));
         let side = 1.0 + s.g(3);
         let bf = any_bounds(s);
-        let bw = any_bounds(s);
-        let nxt = s.below(3);
         m.walls.push(wall(10, bf, 9, 1, None, 180.0, rect(side, side)));
-        m.walls.push(wall(11, bw, 9, 1, match nxt { 0 => None, 1 => Some(uid(2)), _ => Some(uid(7)) }, 90.0, rect(side, 2.0)));
         m.meta.is_new_building = s.bool();
-        m.meta.global_ventilation_l_s = if s.bool() { Some(10.0 + s.g(3)) } else { None };
         let p = EnergyProps::from(&m);
         let area = side * side;
         let hab1 = k1 != SpaceType::UNINHABITED;
         cover!(in1 && hab1 && mult == 2.0, "inside habitable space with multiplier");
-        cover!(in1 != in2 && nxt == 1 && bw == BoundaryType::INTERIOR, "partition between inside and outside space");
-        assert!(p.global.a_ref == fround2(0.0 + if in1 && hab1 { area * mult } else { 0.0 } + 0.0), "C11:reference area = floor area of habitable spaces inside the envelope (with multipliers)");
-        assert!(p.global.vol_env_gross == fround2(0.0 + if in1 { area * h1 * mult } else { 0.0 } + 0.0), "C11:gross volume = floor area x gross height of spaces inside the envelope");
-        assert!(p.global.vol_env_net == fround2(0.0 + if in1 { area * h1 * mult } else { 0.0 } + 0.0), "C11:net volume = floor area x net height (no ceiling element here)");
+        cover!(in1 && !hab1, "uninhabited space inside the envelope");
+        assert!(p.global.a_ref == fround2(0.0 + if in1 && hab1 { area * mult } else { 0.0 }), "C11:reference area = floor area of habitable spaces inside the envelope (with multipliers)");
+        assert!(p.global.vol_env_gross == fround2(0.0 + if in1 { area * h1 * mult } else { 0.0 }), "C11:gross volume = floor area x gross height of spaces inside the envelope");
+        assert!(p.global.vol_env_net == fround2(0.0 + if in1 { area * h1 * mult } else { 0.0 }), "C11:net volume = floor area x net height (no ceiling element here)");
         assert!(p.global.c_o_100 == if m.meta.is_new_building { 16.0 } else { 29.0 }, "C09:Co = 16 for new, 29 for existing buildings");
-        // membership rule of the statement
-        let next_inside = nxt == 1 && in2;
-        let tenv = |b: BoundaryType, has_next: bool| match b { BoundaryType::INTERIOR => in1 != (has_next && next_inside), _ => in1 };
-        let (wf, ww) = (p.walls.get(&uid(10)).unwrap(), p.walls.get(&uid(11)).unwrap());
-        assert!(wf.is_tenv == tenv(bf, false), "C11:floor belongs to the envelope per the membership rule");
-        assert!(ww.is_tenv == tenv(bw, true), "C11:wall belongs to the envelope per the membership rule");
-        assert!(wf.multiplier == mult && ww.multiplier == mult, "C11:elements carry their space's multiplier");
-        let exp_f = wf.is_tenv && (bf == BoundaryType::EXTERIOR || bf == BoundaryType::GROUND);
-        let exp_w = ww.is_tenv && (bw == BoundaryType::EXTERIOR || bw == BoundaryType::GROUND);
-        let exposed = (0.0 + if exp_f { area * mult } else { 0.0 }) + if exp_w { side * 2.0 * mult } else { 0.0 };
-        // (sum order over the id-ordered map: wall 10 then wall 11)
-        if exp_f || exp_w {
-            assert!(p.global.compactness == p.global.vol_env_gross / exposed, "C11:compactness = gross volume / envelope area exposed to air or ground");
+        let wf = p.walls.get(&uid(10)).unwrap();
+        assert!(wf.is_tenv == in1, "C11:an element towards air, ground or an adiabatic boundary belongs to the envelope iff its space is inside");
+        assert!(wf.multiplier == mult, "C11:elements carry their space's multiplier");
+        let exp_f = in1 && (bf == BoundaryType::EXTERIOR || bf == BoundaryType::GROUND);
+        if exp_f {
+            assert!(p.global.compactness == p.global.vol_env_gross / (0.0 + area * mult), "C11:compactness = gross volume / envelope area exposed to air or ground");
         } else {
             assert!(p.global.compactness == 0.0, "C11:compactness 0 without exposed area");
         }
+        std::mem::forget(m);
+        std::mem::forget(p);
+    }
+
+    /// envelope membership of a wall between two spaces (the rule of the statement)
+    #[kani::unwind(6)]
+    #[kani::stub(alloc::fmt::format, crate::stubs::fmt_stub)]
+    #[kani::stub(f32::round, crate::stubs::round_stub)]
+    #[kani::stub(bemodel::Model::compute_fshobst, crate::stubs::fshobst_stub)]
+    fn props_membership(s) {
+        let mut m = Model::default();
+        let (in1, in2) = (s.bool(), s.bool());
+        m.spaces.push(space(1, SpaceType::CONDITIONED, in1, 3.0, 0.0, None));
+        m.spaces.push(space(2, SpaceType::CONDITIONED, in2, 3.0, 0.0, None));
+        // the other boundary kinds are decided in props_global; here the partition rule
+        let bw = if s.bool() { BoundaryType::INTERIOR } else { BoundaryType::ADIABATIC };
+        let nxt = s.below(3);
+        m.walls.push(wall(11, bw, 9, 1, match nxt { 0 => None, 1 => Some(uid(2)), _ => Some(uid(7)) }, 90.0, Vec::new()));
+        let p = EnergyProps::from(&m);
+        let next_inside = nxt == 1 && in2;
+        let want = match bw { BoundaryType::INTERIOR => in1 != next_inside, _ => in1 };
+        cover!(!in1 && in2 && nxt == 1 && bw == BoundaryType::INTERIOR, "partition declared from the outside space");
+        cover!(in1 && !in2 && nxt == 1 && bw == BoundaryType::INTERIOR, "partition declared from the inside space");
+        assert!(p.walls.get(&uid(11)).unwrap().is_tenv == want, "C11:an element belongs to the envelope exactly when it bounds an inside space towards air/ground/adiabatic or separates an inside from an outside space");
         std::mem::forget(m);
         std::mem::forget(p);
     }
@@ -130,18 +142,27 @@ harnesses! {
         let p = EnergyProps::from(&m);
         let used_in_u = m.global_ventilation_rate();
         cover!(in1 && k1 == SpaceType::CONDITIONED, "habitable space inside the envelope");
-        assert!(p.global.global_ventilation_rate == used_in_u || (p.global.global_ventilation_rate.is_nan() && used_in_u.is_nan()), "C11:reported building ventilation rate is the one used inside the U-value calculation");
+        cover!(!in1 && k1 == SpaceType::UNCONDITIONED, "habitable space outside the envelope only");
+        // with no habitable volume inside the envelope both rates are q/0 (sign of the zero differs between an
+        // empty and a zero-valued f32 sum): the rate is undefined there, outside the statement
+        if in1 && k1 != SpaceType::UNINHABITED {
+            assert!(p.global.global_ventilation_rate == used_in_u, "C11:reported building ventilation rate is the one used inside the U-value calculation");
+            assert!(used_in_u.is_finite(), "C14:ventilation rate of a building with habitable volume is finite");
+        } else {
+            assert!(!p.global.global_ventilation_rate.is_finite() && !used_in_u.is_finite(), "C11:both rates are undefined without habitable volume inside the envelope");
+        }
         std::mem::forget(m);
         std::mem::forget(p);
     }
 }
 
-fn poly_case<S: Src>(s: &mut S, n: usize) {
+fn poly_case<S: Src>(s: &mut S, n: usize) { poly_case_k(s, n, None) }
+fn poly_case_k<S: Src>(s: &mut S, n: usize, kfix: Option<f32>) {
     let mut xs = [0i32; 5];
     let mut ys = [0i32; 5];
     let mut poly: Vec<Point2> = Vec::new();
     let mut poly2: Vec<Point2> = Vec::new();
-    let k = match s.below(4) { 0 => 0.25f32, 1 => 0.5, 2 => 2.0, _ => 4.0 };
+    let k = match kfix { Some(k) => k, None => match s.below(4) { 0 => 0.25f32, 1 => 0.5, 2 => 2.0, _ => 4.0 } };
     let mut i = 0;
     while i < n {
         xs[i] = s.int(-4, 4);
